@@ -1,6 +1,7 @@
 package main
 
 import (
+	"sync/atomic"
 	"crypto/md5"
 	"encoding/json"
 	"errors"
@@ -46,6 +47,7 @@ type relVersion struct {
 }
 
 type relExec struct {
+	calls    atomic.Int64 // requests the scripted receiver has answered (progress signal for the hang guard)
 	sandbox  string
 	root     string
 	cacheDir string
@@ -375,6 +377,7 @@ func (p *relPolled) Received() bool { return p.code == sts.ConfirmPassed }
 func (p *relPolled) Waiting() bool  { return p.code == sts.ConfirmWaiting }
 
 func (e *relExec) recoverer() ([]*sts.Partial, error) {
+	e.calls.Add(1)
 	if e.recErrs > 0 {
 		e.recErrs--
 		e.trace = append(e.trace, "rerr")
@@ -408,6 +411,7 @@ func (e *relExec) validator(sent []sts.Pollable) ([]sts.Polled, error) {
 		}
 		tok = strings.Join(s, ",")
 	}
+	e.calls.Add(1)
 	e.trace = append(e.trace, "poll:"+tok)
 	if e.pollErrs > 0 {
 		e.pollErrs--
@@ -678,8 +682,12 @@ func (e *relExec) newBroker(buf int) *client.Broker {
 var relHangSeen bool
 
 func (e *relExec) guarded(b *client.Broker, limit time.Duration, f func()) (hung bool) {
+	// A hang is judged by progress, not by the wall clock alone (a loaded machine made a plain 3 s limit fire
+	// on healthy code): the loop is hung when the scripted receiver has not been asked anything for `idle`
+	// (blocked), or was asked more often than any finite script can explain (spinning).
+	idle := 10 * limit
 	if relHangSeen {
-		limit = 300 * time.Millisecond // after the first hang do not wait long for the next ones
+		idle = limit / 3 // after the first hang do not wait long for the next ones
 	}
 	done := make(chan struct{})
 	go func() {
@@ -691,14 +699,26 @@ func (e *relExec) guarded(b *client.Broker, limit time.Duration, f func()) (hung
 		}()
 		f()
 	}()
-	select {
-	case <-done:
-		return false
-	case <-time.After(limit):
-		relHangSeen = true
-		b.VerifReleaseStopNow()
-		<-done
-		return true
+	start := e.calls.Load()
+	last, lastChange := start, time.Now()
+	tick := time.NewTicker(20 * time.Millisecond)
+	defer tick.Stop()
+	for {
+		select {
+		case <-done:
+			return false
+		case <-tick.C:
+			n := e.calls.Load()
+			if n != last {
+				last, lastChange = n, time.Now()
+			}
+			if time.Since(lastChange) > idle || n-start > 20000 {
+				relHangSeen = true
+				b.VerifReleaseStopNow()
+				<-done
+				return true
+			}
+		}
 	}
 }
 
